@@ -324,6 +324,8 @@ PLANS["C14"] = dict(
         # complete also when the bundle is very large (sequential model of the cache: what is stored is what is read)
         dict(name="large-bundles", static_cases=crl_large_cases, drive=dict(driver="crl-seq", extra=lambda tier, seed: ["-workers", "2"]),
              validate=dict(module="Trace_CRLCacheSeq", cfg=C15_TRACE)),
+        # readers without pause against writers without pause (a few seconds, several hundred thousand reads): per-reader counts
+        dict(name="hammer", drive=dict(driver="crl-hammer"), validate=dict(module="Trace_CRLHammer", cfg=trace_cfg(), recheck=False)),
         dict(name="free-running",
              drive=dict(driver="crl-stress", race=True),
              validate=dict(module="Trace_CRLCacheFree", searching=True, recheck=False, jvm="-Dtlc2.tool.queue.IStateQueue=StateDeque",
